@@ -251,6 +251,12 @@ func (u *vc04EcsUpstream) ServeDNS(ctx context.Context, rw dnsserver.ResponseWri
 	u.total++
 
 	resp := vdns.Answer(req, tag, true)
+	if opt := resp.IsEdns0(); opt != nil && resp.Rcode == dns.RcodeServerFailure {
+		// Failures carry an Extended DNS Error, the one EDNS option the cache
+		// keeps; the OPT record that holds it is then part of the cached answer.
+		opt.Option = append(opt.Option, &dns.EDNS0_EDE{InfoCode: dns.ExtendedErrorCodeNetworkError, ExtraText: "upstream unreachable"})
+	}
+
 	if e != nil {
 		opt := resp.IsEdns0()
 		if opt == nil {
